@@ -539,7 +539,7 @@ func FunctionMap() map[string]physical.FunctionDetails {
 								}
 
 								var sb strings.Builder
-								sb.WriteRune('^') // match start
+								sb.WriteString("(?s)^") // match start; (?s): _ and % also match newlines
 
 								escaping := false // was the character previously seen an escaping \
 
